@@ -114,8 +114,8 @@ example : Tok dG := ⟨rfl, by decide, by decide, by decide, by decide⟩
   all entries annotated with one subject carry one digest, and every subject-annotated entry registers a stored,
   decodable response document;
 * `RJ` — content: for every subject `S ≠ ""` the digests listed in the response read for `S` are pairwise different,
-  each is the digest of a stored manifest whose body names `S` as its subject, and they are exactly the digests the
-  specification `G S` holds.
+  each is the digest of a stored manifest whose body names `S` as its subject, they are exactly the digests the
+  specification `G S` holds, and no body with a subject is defined under the name of a response document.
 `specStep` updates the specification from what a client observes: a push into `r` answered 201 with an `OCI-Subject`
 header adds the answered digest to that subject; a delete by digest in `r` answered 202 removes the digest from every
 subject; nothing else changes it.  `Names T`: `respName` is injective on lists over `T` and the digests of response
@@ -138,18 +138,36 @@ example : RefOK (fun _ => False) "r" (mPut {} "r" "t" "bogus" "" "@m" true).1
   intro a ha
   simp [mValidate, checkCt, isImageMT, isIndexMT, refuse, bind, Except.bind] at ha
 
-/-- Preserved by a manifest delete in `r`, by tag or by digest, unless the digest is that of a referrers response
-    document (deleting the response document through the manifest API unregisters it: the listing of its subject
-    becomes empty although the referrers are still there).  After a delete by digest the specification no longer
-    holds that digest under any subject. -/
+/-- The repaired delete handler: a delete by digest that resolves to a digest carried by a response entry of the index
+    (`Sub e`), and by no entry of another kind (`¬ Twinned`), is refused with 404 MANIFEST_UNKNOWN; nothing changes
+    but that the repository entry exists. -/
+theorem delete_of_response_refused (s : State) (r arg : String) (desc e : Desc) (ht : isTag arg = false)
+    (hg : getDesc (s.repo r).index arg = some desc) (he : e ∈ (s.repo r).index.manifests) (hsub : Upd.Rf.Sub e)
+    (hed : e.dig = desc.dig) (hnt : ¬ Twinned (s.repo r).index desc.dig) :
+    mDel s r arg = (s.setRepo (s.repo r), { status := 404, code := "MANIFEST_UNKNOWN" }) :=
+  mDel_response_refused s r arg desc e ht hg he hsub hed hnt
+
+/-- register a response, then try to delete the response document by its digest through the manifest API: 404, and
+    the response is still read (`Upd.Rf.example_delete_response`, all hypotheses discharged on a concrete state) -/
+example : (mDel (referrerAdd {} "r" "s" dG) "r" "sha256:R(g//0//)").2.status = 404 ∧
+    ∃ e, currentResp (mDel (referrerAdd {} "r" "s" dG) "r" "sha256:R(g//0//)").1 "r" "s" = some (e, [dG]) :=
+  example_delete_response
+
+/-- Preserved by a manifest delete in `r`, by tag or by digest.  A digest that only response entries carry is refused
+    by the handler (`delete_of_response_refused`), so the only exclusion left is `Twinned`: the digest is carried by
+    a response entry *and* by an entry of another kind — a client has pushed a manifest byte-identical to a referrers
+    response document; deleting that manifest by digest takes the registration of the response with it.  After a
+    delete by digest the specification no longer holds that digest under any subject. -/
 theorem refok_delete {T : Desc → Prop} {r : String} {s : State} {G : Spec} (h : RefOK T r s G) (hN : Names T)
-    (arg : String) (hadm : isTag arg = false → ∀ d, DigArg.parse arg = .ok d → ∀ ds, d.str ≠ (respDig ds).str) :
+    (arg : String) (hadm : isTag arg = false → ∀ d, DigArg.parse arg = .ok d → ¬ Twinned (s.repo r).index d.str) :
     RefOK T r (mDel s r arg).1 (specStep r G (.mDel r arg) (mDel s r arg).2) :=
   Upd.Rf.refok_delete h hN arg hadm
 
-example (arg : String) (ht : isTag arg = true) :
+/-- any delete, by tag or by digest, on the empty registry -/
+example (arg : String) :
     RefOK (fun _ => False) "r" (mDel {} "r" arg).1 (specStep "r" (fun _ _ => False) (.mDel "r" arg) (mDel {} "r" arg).2) :=
-  refok_delete ⟨RK.init {} rfl, RJ.init {}⟩ names_empty arg (fun hf => by rw [ht] at hf; cases hf)
+  refok_delete ⟨RK.init {} rfl, RJ.init {}⟩ names_empty arg
+    (fun _ _ _ ⟨e1, h1, _⟩ => by simp [State.repo] at h1)
 
 /-- A delete by tag changes no response at all: the list read for every subject is the same afterwards, and so is
     the specification. -/
@@ -182,9 +200,12 @@ example : RefOK (fun _ => False) "r" (step {} (.bDel "q" "x")).1 (fun _ _ => Fal
     * blob deletes addressed to `r` — deleting the blob of a manifest makes the delete handler unable to read its
       subject (the entry then stays listed after the manifest is gone), deleting the blob of a response document
       makes the response read as empty;
-    * a manifest delete by digest in `r` that names the digest of a referrers response document (see `refok_delete`);
+    * a manifest delete by digest in `r` of a digest that a response entry and an entry of another kind share
+      (`Twinned`, see `refok_delete`; a digest that only response entries carry is refused by the handler);
     * an accepted push (in any repository) whose referrer descriptor is outside `T`, and an accepted push into `r`
-      whose digest string does not parse back.
+      whose digest string does not parse back;
+    * a body definition with a subject under the canonical name of a response document (an artefact of symbolic
+      content names: the bytes of a response document have no subject field).
     Not in the request alphabet at all: garbage collection, restart/ingest.  `Names T` is the hypothesis about content
     names (`names_injective` proves its first half for `T = Tok`). -/
 theorem refok_reach_partial {T : Desc → Prop} {r : String} (hN : Names T) (conf : Conf) (href : conf.ref = true)
